@@ -204,6 +204,8 @@ theorem stepInstr_safe (s : St) (i : Instr) (h : VOK s.vm) : StepSafe (stepInstr
     | cont c => intro _; exact hm.withDp _
     | died c => intro _; exact hm.1
     | fault w => intro hn; exact hn
+  · exact withCtx_safe s.vm h _ (putGlyph_noStack _ _) _
+  · exact withCtx_safe s.vm h _ (putSubs_noStack _ _ _ _) _
   · -- the scalar opcodes
     cases hop : scalarOp opc with
     | none => show _ ≠ _; decide
